@@ -570,6 +570,11 @@ func (env *SpecEnv) call(x *SCall) Val {
 		shadow := false
 		if bv, ok := env.bind[id.Name]; ok {
 			_, shadow = sigOf(bv.Go)
+		} else if env.frame != nil {
+			// a parameter or local of function type shadows builtins and macros of the same name
+			if _, fv, ok := env.frame.lookupName(id.Name); ok {
+				_, shadow = sigOf(fv.Go)
+			}
 		}
 		if !shadow {
 			switch id.Name {
